@@ -128,7 +128,14 @@ class Rig:
         ms.splev = splev
         self.timer_value = timer_value
         self.system = None
-        self.system = ms.System(timer_value=timer_value, rest_api=False)
+        import os
+        os.environ.pop('ACS_CDB', None)      # the packaged setup.csv, as the translator reads it
+        try:
+            self.system = ms.System(timer_value=timer_value, rest_api=False)
+        except Exception:
+            for k, v in self.saved.items():
+                setattr(ms, k, v)
+            raise
         orig = self.system._execute
 
         def _execute(msg):
@@ -141,6 +148,7 @@ class Rig:
         self.system._execute = _execute
         self.names = list(self.system.servos)
         self.ops = []
+        self.update_exc = None
         self.rendered = {}        # bits -> text
         self.note_values()
 
@@ -231,7 +239,10 @@ class Rig:
             def value(self):
                 self.n += 1
                 return self.n > 1
-        self.ms.System._update(Stop(), self.system.servos)
+        try:
+            self.ms.System._update(Stop(), self.system.servos)
+        except Exception as ex:     # noqa: the real update thread would die here
+            self.update_exc = ex
         self.note_values()
         per = []
         for n in self.names:
@@ -362,7 +373,10 @@ def gen_command(rng, rig, lim, ptstate):
     names = rig.names
     k = rng.random()
     w = lambda: rng.choice(WS) if rng.random() < 0.08 else ''
-    sv = rng.choice(names)
+    # most histories concentrate on one servo, so that command interactions (STOW then STOP,
+    # PRESET during SETUP, ...) on the same servo are frequent
+    focus = ptstate.get('_focus')
+    sv = focus if (focus is not None and rng.random() < 0.7) else rng.choice(names)
     if k < 0.22:
         return 'STATUS=' + w() + sv + w()
     if k < 0.27:
@@ -410,7 +424,8 @@ def gen_command(rng, rig, lim, ptstate):
 def gen_pt(rng, rig, lim, ptstate):
     """PROGRAMTRACK lines: new trajectories in the near future, continuations, and refusals"""
     names = rig.names
-    sv = rng.choice([n for n in names if lim[n][4]] * 3 + names)
+    focus = ptstate.get('_focus')
+    sv = focus if (focus is not None and rng.random() < 0.7) else rng.choice([n for n in names if lim[n][4]] * 3 + names)
     lo, hi, _, dof, cap = lim[sv]
     st = ptstate.get(sv)
     coords = [fnum(rng, lo[i] * 1.05, hi[i] * 1.05) for i in range(dof)]
@@ -435,13 +450,39 @@ def gen_pt(rng, rig, lim, ptstate):
     return line
 
 
+def pt_burst(rng, rig, lim, feed, refresh):
+    """a whole program-track episode on a capable servo: a new trajectory starting shortly, its points
+    every 0.2 s (some beyond the limits), status refreshes while it is tracked"""
+    sv = rng.choice([n for n in rig.names if lim[n][4]])
+    lo, hi, _, dof, _ = lim[sv]
+    tid = rng.randrange(1, 1000)
+    start = rig.now() + rng.choice([0.25, 0.5, 1.0])
+    base = [rng.uniform(lo[i], hi[i]) for i in range(dof)]
+    step = [rng.uniform(-1, 1) * (hi[i] - lo[i]) / rng.choice([4, 20, 100]) for i in range(dof)]
+    npts = rng.randrange(3, 14)
+    for pid in range(npts):
+        coords = [repr(round(base[i] + step[i] * pid, 4)) for i in range(dof)]
+        st = repr(start) if pid == 0 else '*'
+        feed('PROGRAMTRACK=%s,%d,%d,%s,%s\r\n' % (sv, tid, pid, st, ','.join(coords)), rng.choice([0, 102, 205, 205]))
+        if rng.random() < 0.5:
+            feed('STATUS=%s\r\n' % sv, rng.choice([0, 10, 100]))
+        if rng.random() < 0.3:
+            refresh(rng.choice([10, 103, 205]))
+    for _ in range(rng.randrange(0, 5)):
+        if rng.random() < 0.5:
+            refresh(rng.choice([205, 1024, 5000]))
+        else:
+            feed('STATUS=%s\r\n' % sv, rng.choice([205, 1024, 3000]))
+    return sv
+
+
 DTS = [0, 0, 1, 10, 10, 103, 205, 512, 1024, 1024, 2048, 5119, 5120, 5121, 10240, 30000, 130000]
 
 
 def gen_history(rng, rig, nops, malformed=0.05):
     """drive `rig` with a random history; returns the list of (line, replies)"""
     lim = limits(rig)
-    ptstate = {}
+    ptstate = {'_focus': rng.choice(rig.names) if rng.random() < 0.75 else None}
     hist = []
     if rng.random() < 0.8:
         rig.refresh(0)           # what the update thread does right after construction
@@ -451,6 +492,10 @@ def gen_history(rng, rig, nops, malformed=0.05):
         if k < 0.15:
             rig.refresh(dt)
             hist.append(('<refresh>', dt, None))
+            continue
+        if k > 0.96:
+            pt_burst(rng, rig, lim, lambda d, t: hist.append((d, t, rig.feed(d, t))),
+                     lambda t: (rig.refresh(t), hist.append(('<refresh>', t, None))))
             continue
         if k < 0.15 + malformed:
             data = ''.join(chr(rng.choice([13, 10, 61, 44, 32, 83, 84, 65, 85, rng.randrange(256)]))
